@@ -46,10 +46,11 @@ VARIABLES mode,       \* update mode of the loaded filter: "none" | "all" | "p2p
           explicit,   \* history: items added by Add
           paid,       \* history: outpoints of processed outputs that paid an item of the filter
           nops, nadds,
+          nrel,       \* Reload calls so far
           log
 
-vars == <<mode, side, bits, listed, added, explicit, paid, nops, nadds, log>>
-view == <<mode, side, bits, listed, added, explicit, paid, nops, nadds>>
+vars == <<mode, side, bits, listed, added, explicit, paid, nops, nadds, nrel, log>>
+view == <<mode, side, bits, listed, added, explicit, paid, nops, nadds, nrel>>
 
 ---------------------------------------------------------------------------
 (* Items and transaction templates *)
@@ -105,7 +106,7 @@ Init == /\ mode \in {"none", "all", "p2pk"}
         /\ bits \in BOOLEAN /\ (~side => bits)
         /\ listed \in {{}, {"transfer"}, {"record"}} /\ (~side => listed = {})
         /\ added = {} /\ explicit = {} /\ paid = {}
-        /\ nops = 0 /\ nadds = 0
+        /\ nops = 0 /\ nadds = 0 /\ nrel = 0
         /\ log = <<>>
 
 Log(act, args, must, why) ==
@@ -119,7 +120,7 @@ Add(x) ==
     /\ added' = added \cup {x}
     /\ explicit' = explicit \cup {x}
     /\ nops' = nops + 1 /\ nadds' = nadds + 1
-    /\ UNCHANGED <<mode, side, bits, listed, paid>>
+    /\ UNCHANGED <<mode, side, bits, listed, paid, nrel>>
     /\ Log("Add", [item |-> x], TRUE, "-")
 
 (* Filter.MatchTxAndUpdate with an ordinary tweak: BIP 37 *)
@@ -128,17 +129,28 @@ MatchTx(j) ==
     /\ added' = added \cup Updates(added, mode, j)
     /\ paid' = paid \cup {Op(j, i) : i \in OutHits(added, j)}
     /\ nops' = nops + 1
-    /\ UNCHANGED <<mode, side, bits, listed, explicit, nadds>>
+    /\ UNCHANGED <<mode, side, bits, listed, explicit, nadds, nrel>>
     /\ Log("MatchTx", [tx |-> j], Matches(added, j), Why(added, j))
 
 (* Filter.MatchTxAndUpdate with the side-chain tweak *)
 MatchTxSideChain(j) ==
     /\ nops < MaxOps /\ side
     /\ nops' = nops + 1
-    /\ UNCHANGED <<mode, side, bits, listed, added, explicit, paid, nadds>>
+    /\ UNCHANGED <<mode, side, bits, listed, added, explicit, paid, nadds, nrel>>
     /\ Log("MatchTx", [tx |-> j], SideMatches(added, j), SideWhy(added, j))
 
+(* Filter.Reload(msg) / TxFilter.Load again: the filter is replaced by another one -- of
+   another size -- that holds the items S; what was added or matched before is gone *)
+ReloadSets == {{}, {Ph(1)}, {Ph(2), TxId(1)}, {Op(0, 1), Ph(3)}}
+Reload(S) ==
+    /\ nops < MaxOps /\ ~side /\ nrel < 1
+    /\ added' = S /\ explicit' = S /\ paid' = {}
+    /\ nops' = nops + 1 /\ nrel' = nrel + 1
+    /\ UNCHANGED <<mode, side, bits, listed, nadds>>
+    /\ Log("Reload", [items |-> S], TRUE, "-")
+
 Next == \/ \E x \in Addable : Add(x)
+        \/ \E S \in ReloadSets : Reload(S)
         \/ \E j \in 1..NTx : MatchTx(j)
         \/ \E j \in 1..NTx : MatchTxSideChain(j)
 
@@ -158,7 +170,7 @@ TypeOK == /\ nops \in 0..MaxOps
 NoFalseNegative == explicit \subseteq added
 
 \* nothing ever leaves the filter
-Monotone == [][added \subseteq added']_vars
+Monotone == [][nrel' = nrel => added \subseteq added']_vars
 
 \* ordinary tweak: a transaction that pays to or spends from an item of the
 \* filter matches, and so does one whose id is in it
